@@ -591,7 +591,15 @@ def rule_codec(prog):
     for s in seq:
         if s.get("k") == "Let" and s["pat"].get("k") == "Binding" and "%s#%s" % (s["pat"]["name"], s["pat"]["id"]) == end_name:
             ce = hir.strip(s["init"])
-    ok = ce is not None and ce.get("k") == "Binary" and ce["op"] == "+"
+    if ce is None and end_name and "." in end_name:
+        # the frame bounds travel in a struct built by a helper: take the field's initialiser from the struct literal
+        fld = end_name.rsplit(".", 1)[1]
+        for st in hir.nodes_deep(prog, dec["body"], 2, crate=c):
+            if st.get("k") == "Struct" and st.get("adt", "").startswith("lsp4spl::"):
+                for f_ in st["fields"]:
+                    if f_["name"] == fld:
+                        ce = hir.strip(f_["e"])
+    ok = (ce.get("k") == "Binary" and ce["op"] == "+") if ce is not None else None
     out.add("LSCodec::decode", "content_end = content_start + content_length", ok, c.loc(dec["sp"]), "")
     lits = [n["lit"].get("v") for n in hir.nodes_deep(prog, dec["body"]) if n.get("k") == "Lit" and n["lit"]["k"] == "str"]
     out.add("LSCodec::decode", "length is read from the `Content-Length` header", "Content-Length" in lits, c.loc(dec["sp"]), "string literals: %s" % lits)
@@ -626,13 +634,19 @@ def rule_broker(prog):
     if b is None:
         out.missing("document broker task (async fn taking Receiver<DocumentRequest>)")
         return out
-    notify_ds = set(x["d"] for x in roles.notify_fns(prog))
-    docs = None
-    for n in hir.nodes(b["body"], "Let"):
-        if n["pat"].get("k") == "Binding" and "HashMap" in c.tstr(n["pat"]["bt"]):
-            docs = "%s#%s" % (n["pat"]["name"], n["pat"]["id"])
-    if docs is None:
-        out.missing("docs map in document::broker")
+    notify_ps = set(x["p"] for x in roles.notify_fns(prog))
+
+    def is_docs(e):
+        t = c.tstr(e["t"])
+        for ad in e.get("adj") or []:
+            t = c.tstr(ad["to"])
+        return "HashMap<" in t and "AnalyzedSource" in t
+
+    def deep(node):
+        return list(hir.nodes_deep(prog, node, 3, crate=c))
+
+    if not any(n.get("k") == "MethodCall" and is_docs(n["recv"]) for n in deep(b["body"])):
+        out.missing("document map (HashMap<Url, AnalyzedSource>) used by the broker task")
         return out
     arms = {}
     for m in hir.nodes(b["body"], "Match"):
@@ -647,8 +661,8 @@ def rule_broker(prog):
     lossy = ("path", "host_str", "host", "query", "fragment", "domain", "path_segments", "port", "scheme", "username")
     nkeys = 0
     for name, arm in sorted(arms.items()):
-        for n in hir.nodes(arm["body"], "MethodCall"):
-            if place(n["recv"]) == docs and n["m"] in ("insert", "entry", "remove", "get", "get_mut", "contains_key") and n["args"]:
+        for n in deep(arm["body"]):
+            if n.get("k") == "MethodCall" and is_docs(n["recv"]) and n["m"] in ("insert", "entry", "remove", "get", "get_mut", "contains_key") and n["args"]:
                 key = n["args"][0]
                 bad = [x["m"] for x in hir.nodes(key, "MethodCall") if x["m"] in lossy and hir.adt_path(c, x["recv"]["t"]) == "url::Url"]
                 # key computed by a local helper: look into its body
@@ -663,7 +677,6 @@ def rule_broker(prog):
     if nkeys < 4:
         out.missing("docs map operations (found %d)" % nkeys)
     # diagnostics only when announced
-    notes = [n for n in hir.nodes(b["body"], "Call") if hir.callee_display(n) in notify_ds]
     flag_ids = set()
     for pp in b["params"]:
         for bd in hir.pat_bindings(pp):
@@ -675,35 +688,62 @@ def rule_broker(prog):
             pl0 = hir.path_local(l["init"])
             if pl0 and pl0["id"] in flag_ids:
                 flag_ids.add(l["pat"]["id"])
-    for n in notes:
-        guarded = False
-        for x, parents in hir.walk(b["body"]):
-            if x is n:
-                for p in parents:
-                    if p.get("k") == "If":
-                        pl = hir.path_local(p["cond"])
-                        if pl and pl["id"] in flag_ids and _contains(p["then"], n):
-                            guarded = True
-        out.add("document::broker", "diagnostics are published only if the client announced support", guarded, c.loc(n["sp"]),
-                "`notify` must be inside `if <the broker's diagnostics flag>`", ("diag",))
-    out.add("document::broker", "diagnostics are published after Open and after Change", len(notes) == 2, c.loc(b["sp"]),
-            "found %d notify call(s)" % len(notes), ("diag",))
-    who = [x for x in c.bodies if any(hir.callee_display(n) in notify_ds for n in hir.nodes(x["body"], "Call"))]
-    out.add("document::notify", "is called only by the broker", [x["d"] for x in who] == [b["d"]], "", "", ("diag",))
+    # ... or stored in a field of the broker's state struct
+    flag_fields = set()
+    for st in hir.nodes(b["body"], "Struct"):
+        for f in st["fields"]:
+            pl0 = hir.path_local(hir.strip(f["e"]))
+            if pl0 and pl0["id"] in flag_ids:
+                flag_fields.add(f["name"])
+
+    def is_flag(cond):
+        cond = hir.strip_ref(cond)
+        pl = hir.path_local(cond)
+        if pl and pl["id"] in flag_ids:
+            return True
+        return cond.get("k") == "Field" and cond["name"] in flag_fields and c.tstr(cond["t"]) == "bool"
+
+    cmap = hir.callers_map(prog, "lsp4spl")
+
+    def from_broker(x):
+        return x["p"] == b["p"] or x["p"].startswith(b["p"] + "::")
+
+    n_notes = 0
+    for x in c.bodies:
+        if "/tests" in c.file_of(x["sp"]):
+            continue
+        for n, parents in hir.walk(x["body"]):
+            if n.get("k") != "Call" or (hir.callee(n) or "") not in notify_ps:
+                continue
+            n_notes += 1
+            guarded = any(p.get("k") == "If" and is_flag(p["cond"]) and _contains(p["then"], n) for p in parents)
+            out.add("document::broker", "diagnostics are published only if the client announced support", guarded, c.loc(n["sp"]),
+                    "`notify` must be inside `if <the broker's diagnostics flag>`", ("diag",))
+            ok = from_broker(x) or hir.only_called_from(prog, x["p"], from_broker, cmap)
+            out.add("document::notify", "is called only by the broker", ok, c.loc(n["sp"]), "called from %s" % x["d"], ("diag",))
+    if n_notes == 0:
+        out.missing("calls of the PublishDiagnostics builder")
+    for name in ("Open", "Change"):
+        has_note = any(n.get("k") == "Call" and (hir.callee(n) or "") in notify_ps for n in deep(arms[name]["body"]))
+        out.add("document::broker", "diagnostics are published after %s" % name, has_note, c.loc(arms[name]["sp"]), "", ("diag",))
+    for name in ("Close", "GetInfo"):
+        has_note = any(n.get("k") == "Call" and (hir.callee(n) or "") in notify_ps for n in deep(arms[name]["body"]))
+        out.add("document::broker", "no diagnostics are published on %s" % name, not has_note, c.loc(arms[name]["sp"]), "", ("diag",))
 
     def has(arm, meth):
-        return [n for n in hir.nodes(arm["body"], "MethodCall") if n["m"] == meth]
+        return [n for n in deep(arm["body"]) if n.get("k") == "MethodCall" and n["m"] == meth]
 
     out.add("document::broker", "Open analyses the text and stores it", bool(has(arms["Open"], "insert")) and
-            any(hir.callee_display(n) == "spl_frontend::AnalyzedSource::new" for n in hir.nodes(arms["Open"]["body"], "Call")),
+            any(n.get("k") == "Call" and hir.callee_display(n) == "spl_frontend::AnalyzedSource::new" for n in deep(arms["Open"]["body"])),
             c.loc(arms["Open"]["sp"]), "", ("state",))
-    upd = [n for n in hir.nodes(arms["Change"]["body"], "MethodCall") if (n.get("d") or "") == "spl_frontend::AnalyzedSource::update"]
+    chg = deep(arms["Change"]["body"])
+    upd = [n for n in chg if n.get("k") == "MethodCall" and (n.get("d") or "") == "spl_frontend::AnalyzedSource::update"]
     ok = len(upd) == 1
     if ok:
         # the updated document flows back into the map: entry.insert(x) / docs.insert(k, x) / *slot = x
         newdoc = None
-        for l in hir.nodes(arms["Change"]["body"], "Let"):
-            if l.get("init") is not None and hir.strip(l["init"]) is upd[0] and l["pat"].get("k") == "Binding":
+        for l in chg:
+            if l.get("k") == "Let" and l.get("init") is not None and hir.strip(l["init"]) is upd[0] and l["pat"].get("k") == "Binding":
                 newdoc = "%s#%s" % (l["pat"]["name"], l["pat"]["id"])
 
         def is_new(e):
@@ -711,8 +751,8 @@ def rule_broker(prog):
             return e_ is upd[0] or (newdoc is not None and place(e_) == newdoc)
 
         stored = any(n["args"] and is_new(n["args"][-1]) for n in has(arms["Change"], "insert"))
-        for a_ in hir.nodes(arms["Change"]["body"], "Assign"):
-            if is_new(a_["r"]) and "AnalyzedSource" in c.tstr(a_["l"]["t"]):
+        for a_ in chg:
+            if a_.get("k") == "Assign" and is_new(a_["r"]) and "AnalyzedSource" in c.tstr(a_["l"]["t"]):
                 stored = True
         ok = stored
     out.add("document::broker", "Change stores the updated document", ok, c.loc(arms["Change"]["sp"]), "", ("state",))
@@ -762,21 +802,59 @@ def rule_text_sync(prog):
     out.add("document::to_text_changes", "positions are converted against the advanced temporary text", ok, c.loc(conv[0]["sp"]) if conv else c.loc(b["sp"]),
             "", ("batch",))
     if rr:
-        # the range applied equals the range recorded in the TextChange
-        rng = place(rr[0]["args"][0].get("recv", rr[0]["args"][0])) if hir.strip(rr[0]["args"][0]).get("k") == "MethodCall" else place(rr[0]["args"][0])
-        txt = place(rr[0]["args"][1])
-        ok = (rng or "").endswith(".range") and (txt or "").endswith(".text") and rng.split(".")[0] == txt.split(".")[0]
+        # the range applied equals the range recorded in the TextChange (whatever order they are built in)
+        defs = {}
+        for l in hir.nodes(b["body"], "Let"):
+            if l["pat"].get("k") == "Binding" and l.get("init") is not None:
+                defs[l["pat"]["id"]] = l["init"]
+
+        def canon(e, depth=0):
+            e = hir.strip_ref(e)
+            while e.get("k") == "MethodCall" and e["m"] in ("clone", "to_owned", "as_str", "to_string", "as_ref", "borrow"):
+                e = hir.strip_ref(e["recv"])
+            if depth > 8:
+                return None
+            if e.get("k") == "Field":
+                base = hir.strip_ref(e["base"])
+                pl = hir.path_local(base)
+                if pl and pl["id"] in defs:
+                    d_ = hir.strip(defs[pl["id"]])
+                    if d_.get("k") == "Struct":
+                        for f in d_["fields"]:
+                            if f["name"] == e["name"]:
+                                return canon(f["e"], depth + 1)
+                bc = canon(base, depth + 1)
+                return (bc + "." + e["name"]) if isinstance(bc, str) else None
+            pl = hir.path_local(e)
+            if pl:
+                if pl["id"] in defs:
+                    d_ = hir.strip_ref(defs[pl["id"]])
+                    while d_.get("k") == "MethodCall" and d_["m"] in ("clone", "to_owned"):
+                        d_ = hir.strip_ref(d_["recv"])
+                    if d_.get("k") in ("Field",) or hir.path_local(d_):
+                        return canon(d_, depth + 1)
+                return "%s#%s" % (pl["name"], pl["id"])
+            return "node@%d" % id(e)
+
+        lits = [st for st in hir.nodes(b["body"], "Struct") if (st.get("adt") or "") == "spl_frontend::TextChange"]
+        ok = None
+        if len(lits) == 1:
+            f = {x["name"]: x["e"] for x in lits[0]["fields"]}
+            r1, r2 = canon(rr[0]["args"][0]), canon(f.get("range", {}))
+            t1, t2 = canon(rr[0]["args"][1]), canon(f.get("text", {}))
+            if None not in (r1, r2, t1, t2):
+                ok = r1 == r2 and t1 == t2
         out.add("document::to_text_changes", "the temporary text receives the same range and text as the TextChange", ok,
-                c.loc(rr[0]["sp"]), "range %s text %s" % (rng, txt), ("batch",))
-    # every String whose length/positions feed a TextChange.range inside the per-change closure is the temp text
-    clos = [n for n in hir.nodes(b["body"], "Closure")]
+                c.loc(rr[0]["sp"]), "", ("batch",))
+    # every String whose length/positions feed a TextChange.range inside the per-change step is the temp text
+    clos = [n for n in hir.nodes(b["body"], "Closure")] or [n for n in hir.nodes(b["body"], "ForLoop")]
     if clos and temp:
         clo = clos[0]
         inner_defs = set()
         for l in hir.nodes(clo["body"], "Let"):
             for bd in hir.pat_bindings(l["pat"]):
                 inner_defs.add(bd["id"])
-        for pp in clo["params"]:
+        for pp in (clo.get("params") or [clo["pat"]]):
             for bd in hir.pat_bindings(pp):
                 inner_defs.add(bd["id"])
         outer = {}
@@ -792,6 +870,12 @@ def rule_text_sync(prog):
             for fl in st["fields"]:
                 if fl["name"] != "range":
                     continue
+                fl = dict(fl)
+                pl0 = hir.path_local(hir.strip_ref(fl["e"]))
+                if pl0:
+                    for l in hir.nodes(clo["body"], "Let"):
+                        if l["pat"].get("k") == "Binding" and l["pat"]["id"] == pl0["id"] and l.get("init") is not None:
+                            fl["e"] = l["init"]
                 for pth in hir.nodes(fl["e"], "Path"):
                     r = pth["res"]
                     if r.get("k") == "Local" and r["id"] in outer and "%s#%s" % (r["name"], r["id"]) != temp:
